@@ -1,4 +1,5 @@
 import UtilModel.CContainer.Props
+import UtilModel.CContainer.Transfer
 open UtilModel UtilModel.CContainer
 #print axioms UtilModel.accepts_sound
 #print axioms UtilModel.monitor_of_simulation
@@ -13,3 +14,5 @@ open UtilModel UtilModel.CContainer
 #print axioms UtilModel.CContainer.wait_satisfied_enabled
 #print axioms UtilModel.CContainer.wait_quiescent_none_true
 #print axioms UtilModel.CContainer.C15_obs
+#print axioms UtilModel.C15_accepted
+#print axioms UtilModel.acceptsH_sound
